@@ -34,6 +34,9 @@ def select_harnesses(pid, tier):
         for h in meta.parse_file(f):
             if pid not in h.props:
                 continue
+            if h.tier == "off":
+                # kept for documentation; not reliable / not feasible under CBMC (see the file)
+                continue
             if h.tier == "thorough" and tier != "thorough":
                 continue
             h.modpath = plan.modpath(rel, m)
@@ -92,6 +95,13 @@ def classify_check(c):
     if st == "Failure":
         if IGNORED_DESC.match(desc):
             return "ignored"
+        loc = (c.get("location") or {}).get("file") or ""
+        # Failures INSIDE the verifier's own allocator model (kani_lib.c: __rust_alloc/__rust_dealloc
+        # layout preconditions) or inside std's `unchecked_*` UB preconditions cannot be caused by the
+        # safe Rust under contract; they have been observed as environment-dependent artefacts of
+        # CBMC's memory model (DESIGN.md 2.3).  They make the harness UNDECIDED, never a VIOLATION.
+        if loc.endswith("kani_lib.c") or ("/rustlib/src/rust/library/" in loc and "unchecked_" in desc):
+            return "undetermined"
         if cat == "unwind" or "unwinding assertion" in desc:
             return "unwind"
         if cat == "unsupported_construct" or "not currently supported by Kani" in desc:
